@@ -81,6 +81,16 @@ pub struct Wrappers {
     k: BTreeMap<Fieldless, Option<Newtype>>,
 }
 
+/// newtype-wrapped map keys
+#[derive(Deserialize, Serialize, Debug, PartialEq, Eq, PartialOrd, Ord, Clone)]
+pub struct Id(u32);
+#[derive(Deserialize, Serialize, Debug, PartialEq, Eq, PartialOrd, Ord, Clone)]
+pub struct Flag(bool);
+#[derive(Deserialize, Serialize, Debug, PartialEq, Eq, PartialOrd, Ord, Clone)]
+pub struct Name(String);
+#[derive(Deserialize, Serialize, Debug, PartialEq, Eq, PartialOrd, Ord, Clone)]
+pub struct Wide(i128);
+
 /// everything but `a` is skipped (validated, not decoded)
 #[derive(Deserialize, Serialize, Debug, PartialEq, Clone)]
 pub struct Known {
@@ -532,6 +542,18 @@ pub fn types() -> Vec<TypeCase> {
             js(&w)
         }),
         tc!("Option<()>", Option<()>, |r| (*r.pick(&["null", "[]", "0"])).to_string()),
+        tc!("BTreeMap<Id,String>", BTreeMap<Id, String>, |r| js(&(0..r.range(0, 4)).map(|_| (Id(r.next() as u32 >> r.below(32)), rs(r))).collect::<BTreeMap<_, _>>())),
+        tc!("BTreeMap<Flag,u8>", BTreeMap<Flag, u8>, |r| js(&(0..r.range(0, 3)).map(|_| (Flag(r.chance(1, 2)), r.next() as u8)).collect::<BTreeMap<_, _>>())),
+        tc!("BTreeMap<Name,Wide>", BTreeMap<Name, Wide>, |r| js(&(0..r.range(0, 3)).map(|_| (Name(rs(r)), Wide((r.next() as i64 as i128) << r.below(64)))).collect::<BTreeMap<_, _>>())),
+        tc!("BTreeMap<Wide,Id>", BTreeMap<Wide, Id>, |r| js(&(0..r.range(0, 3)).map(|_| (Wide((r.next() as i64 as i128) << r.below(64)), Id(r.next() as u32))).collect::<BTreeMap<_, _>>())),
+        // 128-bit integers read after strings by the same deserializer (tuples, sequences of pairs)
+        tco!("(String,u128)", (String, u128), |r| js(&(rs(r), (r.next() as u128) << r.below(64)))),
+        tco!("Vec<(String,i128)>", Vec<(String, i128)>, |r| js(&(0..r.range(0, 4)).map(|_| (rs(r), (r.next() as i64 as i128) << r.below(64))).collect::<Vec<_>>())),
+        tco!("(String,i128,String,u128,u64)", (String, i128, String, u128, u64), |r| {
+            // escaped digits in the strings: what an unescape leaves behind must not leak into the number
+            let s1 = if r.chance(1, 2) { "\\u0031\\u0032".to_string() } else { "a\\\"b\\n".to_string() };
+            format!("[\"{}\", {}, \"{}\" ,{},{}]", s1, (r.next() as i64 as i128) << r.below(60), "\\u0039\\t", (r.next() as u128) << r.below(60), r.next())
+        }),
         tc!("Known+skipped", Known, |r| {
             // the skipped member holds a number shape, a hostile literal or a whole document
             let v = match r.below(4) {
